@@ -37,7 +37,11 @@ def truth(layout):
     if layout.get('big') and dt.kind in 'iu':
         # values close to the limits of the sample type (a product with a unit factor must not wrap)
         v = v * (np.iinfo(dt).max // (int(np.abs(v).max()) + 1))
-    return v.astype(dt).reshape(n, nc)
+    A = v.astype(dt).reshape(n, nc)
+    if layout.get('nonfinite') and dt.kind == 'f':
+        # a float recording whose last channel holds NaN and infinities (a dead / saturated channel)
+        A[:, nc - 1] = [[np.nan, np.inf, -np.inf][i % 3] for i in range(n)]
+    return A
 
 
 def build_reader(d, layout):
